@@ -736,8 +736,8 @@ func c05r2(rc *core.RC) {
 				}
 				for _, c := range cs {
 					if callsValidator(c) {
-						if !callerValidatesEverySuccess(p, c, f, validators) {
-							why = p.FuncName(c) + " (it calls a validator, but a success return behind the scan is reached without passing the call: a fast path in front of it)"
+						if ok, detail := callerValidatesEverySuccess(p, c, f, validators, rc.Tier); !ok {
+							why = p.FuncName(c) + " (it calls a validator, but a success return behind the scan is reached without passing the call: " + detail + ")"
 							return false
 						}
 						continue
@@ -1372,7 +1372,7 @@ func validatorGuardsSuccess(p *core.Program, fd *ast.FuncDecl, validators map[st
 // callerValidatesEverySuccess: in a function that receives a number token from the scanner `scan` and calls a
 // validator, every success return that can be reached behind the scanner call passes a validator call, except the
 // returns for the nil token (the literal null: `if tok == nil { return … }`).
-func callerValidatesEverySuccess(p *core.Program, fd *ast.FuncDecl, scan *types.Func, validators map[string]bool) bool {
+func callerValidatesEverySuccess(p *core.Program, fd *ast.FuncDecl, scan *types.Func, validators map[string]bool, tier string) (bool, string) {
 	info := p.Info(fd)
 	cf := core.BuildCFG(fd.Body, info)
 	blockOfPos := func(pos, end token.Pos) *cfg.Block {
@@ -1416,7 +1416,7 @@ func callerValidatesEverySuccess(p *core.Program, fd *ast.FuncDecl, scan *types.
 		return true
 	})
 	if len(scanBlocks) == 0 || len(vblocks) == 0 {
-		return len(scanBlocks) == 0
+		return len(scanBlocks) == 0, "no validator call"
 	}
 	reach := map[*cfg.Block]bool{}
 	for _, sb := range scanBlocks {
@@ -1453,10 +1453,98 @@ func callerValidatesEverySuccess(p *core.Program, fd *ast.FuncDecl, scan *types.
 			}
 		}
 		if !ok {
-			return false
+			// a fast path: the return stands under `if …, ok := helper(tok); ok`. The helper is folded for every
+			// token over the number alphabet: what it accepts has to be a number of RFC 8259.
+			accepted, detail := fastPathAcceptsOnlyNumbers(p, fd, r, toks, tier)
+			if !accepted {
+				return false, detail
+			}
 		}
 	}
-	return true
+	return true, ""
+}
+
+var rfc8259Number = regexp.MustCompile(`^-?(0|[1-9][0-9]*)(\.[0-9]+)?([eE][+-]?[0-9]+)?$`)
+
+// fastPathAcceptsOnlyNumbers: the return r of fd stands under a condition `ok` that a helper of the module computed
+// from the token alone (v, ok := helper(tok)). The helper is folded (whole function, the token bound to each string
+// over 0 1 9 - + . e E x that begins like a token of the scanner) and every string it accepts is matched against the
+// number grammar. Floating-point values inside the helper are not computed (they do not decide what is accepted).
+func fastPathAcceptsOnlyNumbers(p *core.Program, fd *ast.FuncDecl, r *ast.ReturnStmt, toks map[types.Object]bool, tier string) (bool, string) {
+	info := p.Info(fd)
+	var helper *ast.FuncDecl
+	for _, cn := range condChainNodes(fd, r) {
+		id, ok := core.Unparen(cn.cond).(*ast.Ident)
+		if !ok || !cn.pos {
+			continue
+		}
+		okObj := core.ObjOf(info, id)
+		ast.Inspect(fd.Body, func(m ast.Node) bool {
+			as, isAs := m.(*ast.AssignStmt)
+			if !isAs || len(as.Rhs) != 1 || len(as.Lhs) < 2 || core.ObjOf(info, as.Lhs[len(as.Lhs)-1]) != okObj {
+				return true
+			}
+			c, isCall := core.Unparen(as.Rhs[0]).(*ast.CallExpr)
+			if !isCall || len(c.Args) != 1 || !toks[core.ObjOf(info, c.Args[0])] {
+				return true
+			}
+			if f := core.Callee(info, c); f != nil {
+				if d := p.DeclOf(f); d != nil && d.Body != nil && d.Type.Params.NumFields() == 1 {
+					helper = d
+				}
+			}
+			return true
+		})
+	}
+	if helper == nil {
+		return false, "a fast path in front of it"
+	}
+	hinfo := p.Info(helper)
+	arg := hinfo.Defs[helper.Type.Params.List[0].Names[0]]
+	alphabet := []byte("019-+.eEx")
+	maxLen := 5
+	if tier == "thorough" {
+		maxLen = 6
+	}
+	bp := &core.BytePred{P: p, Strings: map[types.Object][]byte{}}
+	bad, undecided := "", ""
+	var gen func(prefix []byte)
+	gen = func(prefix []byte) {
+		if bad != "" || undecided != "" {
+			return
+		}
+		if len(prefix) > 0 {
+			bp.Steps = 0
+			bp.Strings[arg] = prefix
+			_, _, done, ok := bp.ExecList(hinfo, helper.Body.List, core.BindAll(nil))
+			if !ok || !done || len(bp.Results) == 0 {
+				undecided = string(prefix)
+				return
+			}
+			if bp.Results[len(bp.Results)-1] != 0 && !rfc8259Number.Match(prefix) {
+				bad = string(prefix)
+				return
+			}
+		}
+		if len(prefix) == maxLen {
+			return
+		}
+		for _, c := range alphabet {
+			if len(prefix) == 0 && c != '-' && (c < '0' || c > '9') {
+				continue // the scanners begin a token at a minus sign or a digit
+			}
+			gen(append(append([]byte{}, prefix...), c))
+		}
+	}
+	gen(nil)
+	name := p.FuncName(helper)
+	switch {
+	case undecided != "":
+		return false, fmt.Sprintf("the fast path %s could not be folded for the token %q", name, undecided)
+	case bad != "":
+		return false, fmt.Sprintf("the fast path %s accepts the token %q, which is not a number of RFC 8259", name, bad)
+	}
+	return true, ""
 }
 
 // underShortCircuit: the call is the right operand (or inside the right operand) of a && or ||,
@@ -1886,11 +1974,11 @@ func c05r12(rc *core.RC) {
 // decoder that hands the rest of its input to them accepts what encoding/json rejects and skips what it stores.
 func c05r13(rc *core.RC) {
 	p := rc.P
+	// (until round 13 the struct decoder left for skipObject under the FirstWin option once every field had been
+	// seen: the byte behind the last value and everything after it went unchecked, `{"A":1.5}` set A to 1)
 	allowed := map[string]string{
-		"decoder.skipValue":                  "",
-		"decoder.(*Stream).skipValue":           "",
-		"decoder.(*structDecoder).Decode":       "firstWin",
-		"decoder.(*structDecoder).DecodeStream": "firstWin",
+		"decoder.skipValue":           "",
+		"decoder.(*Stream).skipValue": "",
 	}
 	n := 0
 	for _, fd := range p.Funcs("decoder") {
@@ -1919,7 +2007,7 @@ func c05r13(rc *core.RC) {
 			key := fmt.Sprintf("%s/calls %s#%d may-skip-mid-container", fn, callee.Name(), k)
 			need, ok := allowed[fn]
 			if !ok {
-				rc.Bad(key, call.Pos(), "%s hands the rest of a container to %s: the lax scanner stores nothing and validates neither numbers nor keys; only skipValue and the FirstWin exit of the struct decoder may (members that a typed decoder has to store or reject are stepped over)", fn, callee.Name())
+				rc.Bad(key, call.Pos(), "%s hands the rest of a container to %s: the lax scanner stores nothing and validates neither numbers nor keys; only skipValue may (members that a typed decoder has to store or reject are stepped over, and what follows the last value is not looked at)", fn, callee.Name())
 				return true
 			}
 			if need == "" {
@@ -1936,8 +2024,8 @@ func c05r13(rc *core.RC) {
 			return true
 		})
 	}
-	if n < 6 {
-		rc.Unknown("decoder/mid-container-skippers", token.NoPos, "found %d calls of skipObject/skipArray outside the skippers (confirmed: 6)", n)
+	if n < 4 {
+		rc.Unknown("decoder/mid-container-skippers", token.NoPos, "found %d calls of skipObject/skipArray outside the skippers (confirmed: 4)", n)
 	}
 }
 
